@@ -191,6 +191,10 @@ class untraced:
         return False
 
 
+GIVE_UP_LIMIT = 300
+ON_GIVE_UP_LIMIT = None
+
+
 def give_up(msg):
     """the harness cannot observe what it needs on this path (e.g. a recorder was never called because the
     code was reorganised): make the path inconclusive instead of reporting a violation"""
@@ -198,6 +202,8 @@ def give_up(msg):
         try:
             from crosshair.util import IgnoreAttempt
             GIVE_UPS.append(msg)
+            if ON_GIVE_UP_LIMIT is not None and len(GIVE_UPS) >= GIVE_UP_LIMIT:
+                ON_GIVE_UP_LIMIT()          # CrossHair would re-try ignored paths until the time budget is gone
             raise IgnoreAttempt(msg)
         except ImportError:
             pass
